@@ -4,9 +4,11 @@ go 1.22.0
 
 require (
 	github.com/apparentlymart/go-textseg/v15 v15.0.0
+	github.com/google/go-cmp v0.6.0
 	github.com/hashicorp/hcl-lang v0.0.0
 	github.com/hashicorp/hcl/v2 v2.23.0
 	github.com/zclconf/go-cty v1.16.2
+	github.com/zclconf/go-cty-debug v0.0.0-20240509010212-0d6042c53940
 	golang.org/x/tools v0.29.0
 )
 
